@@ -10,8 +10,9 @@
 
    What a read of a dashboard reports about its place in the tree depends on the dashboard's parent
    folder AND on every ancestor of it.  getDashboard returns the STORED info and refreshes it
-   (refreshFolderMetadata) only when the stored path string differs from the path string computed
-   from the tree; listItems / getFolderContents compute everything from the tree.
+   (refreshFolderMetadata) when it differs from the info computed from the tree (whole info since
+   the fix; before it only the path strings were compared: *_prefix definitions);
+   listItems / getFolderContents compute everything from the tree.
    Ids: 0 = "root-folder" (item {Name "Root", folder, ParentID ""}; cannot be updated or deleted),
    other ids = the uuids in the order the harness saw them.  Names are byte strings; 47 = '/'.
    Acceptance rules (name clashes, parent checks, circular moves) are not modelled: only accepted
@@ -175,8 +176,19 @@ Definition tree_of_writes (ops : list dop) : tree := fold_left tree_apply ops []
 
 (* ---- reads ---- *)
 
-(* getDashboard + refreshFolderMetadata: answer and the (possibly rewritten) details *)
-Definition get_dash (tr : tree) (det : details) (i : N) : option finfo * details :=
+Definition names_eqb := list_eqb (fun a b : N * name => N.eqb (fst a) (fst b) && bytes_eqb (snd a) (snd b)).
+Definition finfo_eqb (a b : finfo) : bool :=
+  N.eqb (fi_id a) (fi_id b) && bytes_eqb (fi_name a) (fi_name b) &&
+  bytes_eqb (fi_path a) (fi_path b) && names_eqb (fi_crumbs a) (fi_crumbs b).
+(* the freshness test before the fix: path STRINGS only *)
+Definition same_path (a b : finfo) : bool := bytes_eqb (fi_path a) (fi_path b).
+
+(* getDashboard + refreshFolderMetadata: answer and the (possibly rewritten) details.
+   [same stored current] is the "already up-to-date" test: the fixed code compares the whole stored
+   folder info (id, name, path, breadcrumb ids and names: storedFolderInfoMatches) = finfo_eqb;
+   before the fix it compared the path strings only = same_path (kept as the _prefix definitions). *)
+Definition get_dash_with (same : finfo -> finfo -> bool) (tr : tree) (det : details) (i : N)
+  : option finfo * details :=
   match n_get i tr with
   | Some it =>
     if it_folder it then (None, det)                                   (* isDashboardOfOrg *)
@@ -186,18 +198,17 @@ Definition get_dash (tr : tree) (det : details) (i : N) : option finfo * details
            match look tr (it_parent it) with
            | None => (Some fi, det)                                    (* "folder not found": as stored *)
            | Some pf =>
-             let cur := path_of tr (it_parent it) in
-             if bytes_eqb (fi_path fi) cur then (Some fi, det)         (* "already up-to-date" *)
-             else let fi' := info_at tr (it_parent it) pf in
-                  (Some fi', n_put i fi' det)
+             let cur := info_at tr (it_parent it) pf in
+             if same fi cur then (Some fi, det)                        (* "already up-to-date" *)
+             else (Some cur, n_put i cur det)
            end
          end
   | None => (None, det)
   end.
 
 (* listItems calls getDashboard for every item: every dashboard's details are refreshed *)
-Definition refresh_all (tr : tree) (det : details) : details :=
-  fold_left (fun d kv => snd (get_dash tr d (fst kv))) tr det.
+Definition refresh_all_with same (tr : tree) (det : details) : details :=
+  fold_left (fun d kv => snd (get_dash_with same tr d (fst kv))) tr det.
 
 Definition parent_name (tr : tree) (p : N) : name :=
   if p =? 0 then [] else match n_get p tr with Some pf => it_name pf | None => [] end.
@@ -212,7 +223,7 @@ Definition contents_of (tr : tree) (f : N) : dout :=
              (filter (fun kv => it_parent (snd kv) =? f) tr))
         (crumbs_of tr f).
 
-Definition d_step (s : dstate) (o : dop) : dstate * dout :=
+Definition d_step_with same (s : dstate) (o : dop) : dstate * dout :=
   let tr := d_tree s in
   let tr' := tree_apply tr o in
   match o with
@@ -235,89 +246,57 @@ Definition d_step (s : dstate) (o : dop) : dstate * dout :=
   | DelFolder f =>
     let dead := dead_set tr f in
     (mkD tr' (filter (fun kv => negb (existsb (N.eqb (fst kv)) dead)) (d_det s)), DAck)
-  | GetDash i => let r := get_dash tr (d_det s) i in (mkD tr (snd r), DInfo (fst r))
-  | ListAll => (mkD tr (refresh_all tr (d_det s)), DList (list_of tr))
+  | GetDash i => let r := get_dash_with same tr (d_det s) i in (mkD tr (snd r), DInfo (fst r))
+  | ListAll => (mkD tr (refresh_all_with same tr (d_det s)), DList (list_of tr))
   | Contents f => (s, contents_of tr f)
   | DRestart => (s, DAck)
   end.
 
-Fixpoint d_run (ops : list dop) (s : dstate) : dstate :=
+Fixpoint d_run_with same (ops : list dop) (s : dstate) : dstate :=
   match ops with
   | [] => s
-  | o :: r => d_run r (fst (d_step s o))
+  | o :: r => d_run_with same r (fst (d_step_with same s o))
   end.
 
-Fixpoint d_outs (ops : list dop) (s : dstate) : list dout :=
+Fixpoint d_outs_with same (ops : list dop) (s : dstate) : list dout :=
   match ops with
   | [] => []
-  | o :: r => snd (d_step s o) :: d_outs r (fst (d_step s o))
+  | o :: r => snd (d_step_with same s o) :: d_outs_with same r (fst (d_step_with same s o))
   end.
+
+(* the code as it is *)
+Definition get_dash := get_dash_with finfo_eqb.
+Definition d_step := d_step_with finfo_eqb.
+Definition d_run := d_run_with finfo_eqb.
+Definition d_outs := d_outs_with finfo_eqb.
+(* the code before the fix (documentation) *)
+Definition get_dash_prefix := get_dash_with same_path.
+Definition d_run_prefix := d_run_with same_path.
 
 Definition is_read (o : dop) : bool :=
   match o with GetDash _ | ListAll | Contents _ | DRestart => true | _ => false end.
 
-(* ---- the exact condition under which the path-string test of refreshFolderMetadata is enough ---- *)
-
-Definition names_eqb := list_eqb (fun a b : N * name => N.eqb (fst a) (fst b) && bytes_eqb (snd a) (snd b)).
-Definition finfo_eqb (a b : finfo) : bool :=
-  N.eqb (fi_id a) (fi_id b) && bytes_eqb (fi_name a) (fi_name b) &&
-  bytes_eqb (fi_path a) (fi_path b) && names_eqb (fi_crumbs a) (fi_crumbs b).
-
-(* stored info of dashboard [i]: either the refresh notices the change or there is nothing to notice *)
-Definition detects (s : dstate) (i : N) : bool :=
-  match n_get i (d_det s), info_of (d_tree s) i with
-  | Some fi, Some cur => negb (bytes_eqb (fi_path fi) (fi_path cur)) || finfo_eqb fi cur
-  | _, _ => true
-  end.
-
-(* ---- a guard on histories under which [detects] always holds ----
-   every folder name is introduced once in the whole history and contains no '/', operations are
-   applied to ids of the right kind, and the tree stays well formed.  Evaluated along the run. *)
-Definition slash_free (n : name) : bool := negb (existsb (N.eqb slash) n) && negb (match n with [] => true | _ => false end).
-Definition name_fresh (used : list name) (n : name) : bool := slash_free n && negb (existsb (bytes_eqb n) used).
+(* ---- what the acceptance rules of the handlers guarantee after every accepted operation (they are
+   not modelled; the correspondence run evaluates this on every real history): every parent is the
+   root or a present folder and the walk from it ends at the root — so the fuel of the walks is
+   never what ends them ---- *)
 Definition is_folder (tr : tree) (p : N) : bool :=
   if p =? 0 then true else match n_get p tr with Some it => it_folder it | None => false end.
-Definition is_dash (tr : tree) (i : N) : bool :=
-  match n_get i tr with Some it => negb (it_folder it) | None => false end.
-Definition absent (tr : tree) (i : N) : bool :=
-  negb (i =? 0) && match n_get i tr with Some _ => false | None => true end.
-Definition optb {A} (f : A -> bool) (o : option A) : bool := match o with Some x => f x | None => true end.
-
-(* the move does not put a folder below itself (wouldCreateCircularReference) *)
-Definition not_below (tr : tree) (i q : N) : bool :=
-  negb (q =? i) && negb (existsb (fun c => N.eqb (fst c) i) (chain (fuel_of tr) tr q)).
-
-Definition op_ok (tr : tree) (used : list name) (o : dop) : bool :=
-  match o with
-  | MkFolder i nm p => absent tr i && name_fresh used nm && is_folder tr p
-  | MkDash i _ p => absent tr i && is_folder tr p
-  | UpdFolder i nm p =>
-    negb (i =? 0) && (match n_get i tr with Some it => it_folder it | None => false end) &&
-    optb (name_fresh used) nm && optb (fun q => is_folder tr q && not_below tr i q) p
-  | UpdDash i _ p => is_dash tr i && optb (is_folder tr) p
-  | DelDash i => is_dash tr i
-  | DelFolder i => negb (i =? 0) && (match n_get i tr with Some it => it_folder it | None => false end)
-  | _ => true
-  end.
-
-Definition names_of_op (o : dop) : list name :=
-  match o with
-  | MkFolder _ nm _ => [nm]
-  | UpdFolder _ (Some nm) _ => [nm]
-  | _ => []
-  end.
-
-(* what the acceptance rules of the handlers guarantee after every accepted operation (they are
-   not modelled; the correspondence run evaluates this on every real history): every parent is the
-   root or a present folder and the walk from it ends at the root *)
 Definition rooted (tr : tree) (f : N) : bool :=
   match crumbs_of tr f with (0, _) :: _ => true | _ => false end.
 Definition wf_tree (tr : tree) : bool :=
   forallb (fun kv => is_folder tr (it_parent (snd kv)) && rooted tr (it_parent (snd kv))) tr.
 
-Fixpoint hist_ok (tr : tree) (used : list name) (ops : list dop) : bool :=
+Fixpoint wf_hist (tr : tree) (ops : list dop) : bool :=
   match ops with
   | [] => true
-  | o :: r => op_ok tr used o && wf_tree (tree_apply tr o) &&
-              hist_ok (tree_apply tr o) (names_of_op o ++ used) r
+  | o :: r => wf_tree (tree_apply tr o) && wf_hist (tree_apply tr o) r
+  end.
+
+Definition slash_free (n : name) : bool := negb (existsb (N.eqb slash) n) && negb (match n with [] => true | _ => false end).
+Definition names_of_op (o : dop) : list name :=
+  match o with
+  | MkFolder _ nm _ => [nm]
+  | UpdFolder _ (Some nm) _ => [nm]
+  | _ => []
   end.
